@@ -818,10 +818,6 @@ Fixpoint cast_v (strict : bool) (to : ty) (v : value) {struct to} : res value :=
 Definition cast_val (to : ty) (v : value) : res value :=
   match cast_v true to v with Ok r => Ok r | Err _ => cast_v false to v end.
 
-(* concatenation: the values of the first array followed by those of the others, each seen at the
-   result type [tres] *)
-Definition concat_spec (tres : ty) (vss : list (list value)) : res (list value) :=
-  mapM (cast_val tres) (concat vss).
 (* simplifying a union (merge + mergebool may fold booleans into numbers) / an option *)
 Definition simplify_union_spec (tres : ty) (vs : list value) : res (list value) := mapM (cast_val tres) vs.
 Definition simplify_option_spec (vs : list value) : res (list value) := Ok vs.
@@ -1011,3 +1007,28 @@ Fixpoint astype_ty (dst : dtype) (t : ty) : ty :=
   | TRec ks ts => TRec ks (map (astype_ty dst) ts)
   | TUnion ts => TUnion (map (astype_ty dst) ts)
   end.
+
+(* ================================================================ concatenation, value level *)
+(* the alternative of a union result that took in an operand of type [from]: the first one it is mergeable
+   with and that already is the merged type *)
+Definition absorbs (mb : bool) (alt from : ty) : bool :=
+  ty_mergeable mb alt from && ty_eqb (erase_sz (merge_ty (erase_sz alt) (erase_sz from))) (erase_sz alt).
+Definition cast_from (mb : bool) (from to : ty) (v : value) : res value :=
+  match to, from with
+  | TUnion _, TUnion _ => cast_val to v
+  | TUnion alts, _ =>
+      match find (fun a => absorbs mb a from) alts with
+      | Some a => cast_v false a v
+      | None => cast_val to v
+      end
+  | _, _ => cast_val to v
+  end.
+(* the values of the first array followed by those of the others, each seen at the result type [tres] *)
+Definition concat_spec (mb : bool) (tres : ty) (tvs : list (ty * list value)) : res (list value) :=
+  mapM (fun tv : ty * value => cast_from mb (fst tv) tres (snd tv))
+       (concat (map (fun tl : ty * list value => map (fun v => (fst tl, v)) (snd tl)) tvs)).
+
+(* the purely value-directed reading (used when the operand's alternative cannot be told from its type,
+   e.g. merge=False leaves mergeable alternatives apart) *)
+Definition concat_spec_v (tres : ty) (tvs : list (ty * list value)) : res (list value) :=
+  mapM (cast_val tres) (concat (map snd tvs)).
